@@ -25,7 +25,7 @@ ASSUMPTIONS = [
 NT = 4
 H = 0.05
 TOL = 1e-11
-KINDS = ["su_unc", "su_coupled", "su_cdf", "cdf_class", "se2_unc", "se2_coupled"]
+KINDS = ["su_unc", "su_coupled", "su_cdf", "cdf_class", "se2_unc", "se2_coupled", "su_cplx_diag", "su_cplx_coupled"]
 PARTS = ["el", "rb+el", "el+rf", "rb+el+rf", "rf", "rb"]
 STARTS = ["zero", "d0v0", "static"]
 
@@ -41,7 +41,7 @@ def make_system(kind, part, mass):
     nel = 0 if part in ("rf", "rb") else 2
     nrf = {"el": 0, "rb+el": 0, "el+rf": 1, "rb+el+rf": 1, "rf": 2, "rb": 0}[part]
     n = nrb + nel + nrf
-    coupled = kind in ("su_coupled", "se2_coupled")
+    coupled = kind in ("su_coupled", "se2_coupled", "su_cplx_coupled")
     cdf = kind in ("su_cdf", "cdf_class")
     md = np.array([2.0, 1.7][:nrb] + [1.0, 1.5][:nel] + [1.0, 1.0][:nrf])
     kd = np.array([0.0, 0.0][:nrb] + [30.0, 80.0][:nel] + [1.0e4, 3.0e4][:nrf])
@@ -71,6 +71,11 @@ def make_system(kind, part, mass):
                 k[i, j] = k[j, i] = 2.0e3
             if nrb == 2:
                 m[0, 1] = m[1, 0] = 0.2
+    if kind.startswith("su_cplx"):
+        # complex-valued system (structural damping K(1 + i*eta)): the complex-mode path with diagonal or full matrices
+        k = k * (1 + 0.04j)
+        if coupled:
+            b = b * (1 + 0.0j)
     if mass == "none":
         m = None
     return dict(m=m, b=b, k=k, rf=rf if rf else None, n=n, nrb=nrb, nel=nel, nrf=nrf)
@@ -82,7 +87,7 @@ def make_solver(cfg):
     s = make_system(cfg["kind"], cfg["part"], cfg["mass"])
     kw = dict(rf=s["rf"], order=cfg["order"])
     kind = cfg["kind"]
-    if kind in ("su_unc", "su_coupled"):
+    if kind in ("su_unc", "su_coupled", "su_cplx_diag", "su_cplx_coupled"):
         ts = ode.SolveUnc(s["m"], s["b"], s["k"], H, **kw)
     elif kind == "su_cdf":
         ts = ode.SolveUnc(s["m"], s["b"], s["k"], H, cd_as_force=True, **kw)
@@ -133,7 +138,7 @@ class World:
             vprev = self.v[:, self.cur].copy()
             self.gen.send((-1, g.copy()))
             self.model[:, self.cur] += g
-            if self.cfg["order"] == 1:
+            if self.cfg["order"] == 1 and not self.cfg["kind"].startswith("su_cplx"):  # get_f2x: real equations only (documented)
                 I = np.eye(self.sys["n"])
                 fd = self.ts.get_f2x(I, velo=False) @ g
                 fv = self.ts.get_f2x(I, velo=True) @ g
